@@ -51,6 +51,12 @@ sel m14 && run m14 alarm database/input/bibtexml.py "e.fields[field_name] = fiel
 sel m15 && run m15 alarm database/output/bibtexml.py "writer.start('entry', dict(id=key))" "writer.start('entry', dict(id=entry.key))"
 sel m16 && run m16 alarm database/output/bibtex.py "stream.write(u'{%s' % key)" "stream.write(u'{%s' % entry.key)"
 sel m17 && run m17 alarm database/output/bibyaml.py "yield key, fields" "yield entry.key, fields"
+sel m18 && run m18 alarm database/output/bibtex.py "        return codecs.encode(text, 'ulatex+{}'.format(self.encoding))" "        if not hasattr(Writer, '_encoder'):
+            Writer._encoder = codecs.getencoder('ulatex+{}'.format(self.encoding))
+        return Writer._encoder(text)[0]"
+sel m19 && run m19 alarm database/__init__.py "            if string[0].islower():
+                return True" "            if string[0].isalpha():
+                return True"
 sel h1 && run h1 quiet database/output/bibtex.py "        first = person.get_part_as_text('first')
         middle = person.get_part_as_text('middle')
         prelast = person.get_part_as_text('prelast')
